@@ -66,10 +66,12 @@ def limiter(ctx, fams):
     ex.new_frame(st, F, [selfref, c])
     done = ex.run(st)
     skip, skipped, passed, lim, has = v['skip'], v['skipped'], v['passed'], v['limit'], v['has_limit']
-    f_step = run.family('limiter.step', 'row forwarded iff skipped=skip and passed<limit; counters move by one; decision Break iff quota exhausted')
-    f_inv = run.family('limiter.step.invariant', 'the limiter invariant is preserved by process()')
-    f_err = run.family('limiter.err', 'an Err from the successor is returned and nothing else happens')
-    f_pan = run.family('limiter.nopanic', 'no overflow / panic path is reachable from an invariant-satisfying state'); f_pan.need_witness = False
+    from .report import Family
+    mk = lambda on, n, dsc: run.family(n, dsc) if on else Family(n, dsc)
+    f_step = mk('step' in fams, 'limiter.step', 'row forwarded iff skipped=skip and passed<limit; counters move by one; decision Break iff quota exhausted')
+    f_inv = mk('step' in fams, 'limiter.step.invariant', 'the limiter invariant is preserved by process()')
+    f_err = mk('err' in fams, 'limiter.err', 'an Err from the successor is returned and nothing else happens')
+    f_pan = mk('nopanic' in fams, 'limiter.nopanic', 'no overflow / panic path is reachable from an invariant-satisfying state'); f_pan.need_witness = False
     terms = dict(skip=skip, skipped=skipped, passed=passed, limit=lim, has_limit=v['ld'])
     for d in done:
         run.paths += 1
